@@ -270,6 +270,17 @@ func (ci *ConstructorInvoker) Invoke(
 	info *ConstructorInfo,
 	resolver DependencyResolver,
 ) (results []reflect.Value, err error) {
+	return ci.InvokeConstructor(info, info.Value, resolver)
+}
+
+// InvokeConstructor is like Invoke but calls the given constructor value.
+// Functions that share code (closures created by one function literal) share
+// one cached ConstructorInfo, so the caller passes the function it registered.
+func (ci *ConstructorInvoker) InvokeConstructor(
+	info *ConstructorInfo,
+	constructor reflect.Value,
+	resolver DependencyResolver,
+) (results []reflect.Value, err error) {
 	// Handle instance values
 	if !info.IsFunc {
 		// For instances, return the instance value directly
@@ -283,7 +294,7 @@ func (ci *ConstructorInvoker) Invoke(
 	}
 
 	// Call the constructor with panic recovery
-	results, err = ci.invokeWithRecovery(info, args)
+	results, err = ci.invokeWithRecovery(info, constructor, args)
 	if err != nil {
 		return nil, err
 	}
@@ -302,7 +313,7 @@ func (ci *ConstructorInvoker) Invoke(
 }
 
 // invokeWithRecovery calls the constructor and recovers from any panics.
-func (ci *ConstructorInvoker) invokeWithRecovery(info *ConstructorInfo, args []reflect.Value) (results []reflect.Value, err error) {
+func (ci *ConstructorInvoker) invokeWithRecovery(info *ConstructorInfo, constructor reflect.Value, args []reflect.Value) (results []reflect.Value, err error) {
 	defer func() {
 		if r := recover(); r != nil {
 			err = &PanicError{
@@ -313,7 +324,7 @@ func (ci *ConstructorInvoker) invokeWithRecovery(info *ConstructorInfo, args []r
 		}
 	}()
 
-	results = info.Value.Call(args)
+	results = constructor.Call(args)
 	return results, nil
 }
 
